@@ -42,7 +42,7 @@ def collect(seed):
     meta = {
         'id': sid,
         'breaks_property': pid,
-        'round': 2 if letter == 'C' else 1,
+        'round': {'A': 1, 'B': 1, 'C': 2, 'D': 3}.get(letter, 1),
         'title': title,
         'author': 'independent sub-agent given only the property text and its own scratch worktree',
         'which_part_breaks': section(notes, r'Which part')[:2500],
